@@ -25,6 +25,11 @@ def _arms():
 
 def _configs(tier):
     out = _configs0(tier)
+    # code-generation choices of other targets that this compiler can reproduce: float / double arithmetic in x87 registers (32-bit x86 without SSE2:
+    # excess precision, double rounding - seeded change C11-L) and a long double that is no wider than double (Apple Silicon, 32-bit ARM, Android x86,
+    # -mlong-double-64 - seeded change C10-L: 'evaluate in the next wider type'); the library alone is built that way, the fallback bodies in both
+    out += [dict(name='all-off-f64-x87', real=8, have=[], libflags=['-mfpmath=387'], nworkers=2),
+            dict(name='all-off-f64-ld64', real=8, have=[], libflags=['-mlong-double-64'], nworkers=2)]
     import os
     seed = int(os.environ.get('VERIF_SEED', '1') or '1')
     if tier == 'quick':
@@ -65,7 +70,7 @@ def _configs0(tier):
 SPEC = dict(
     harness=['h_complex.c'],
     configs=_configs,
-    parallel_configs=8,
+    parallel_configs=10,
     lib_sources=['complex.c', 'math.c', 'a.c'],
     workers={'quick': 12, 'thorough': 16},
     level='exploration',
